@@ -20,7 +20,7 @@ PROPS = {
  "C15": dict(needs=REFINE + ["ImpSearch", "ImportProofs", "ImpLoad", "ModFS", "RunG", "ImportMain", "Pure"], gen=[], slices=[("slices_world", "c15_search"), ("slices_world", "c15_semantics"), ("slices_world", "c15_in_model")]),
  "C06": dict(needs=CORE + ["Float", "Eq", "Complex"], gen=[], slices=[("slices_values", "c06_eq")]),
  "C12": dict(needs=REFINE + ["SeqProofs", "SliceReal", "RunG", "SeqSpec", "SeqLink"], gen=[], slices=[("slices_values", "c12_seq")]),
- "C16": dict(needs=CORE + ["RunG", "Codec", "Bits", "Utf", "Utf16"], gen=[], slices=[("slices_values", "c16_codecs")]),
+ "C16": dict(needs=CORE + ["HeapFacts", "Refine1", "Refine2", "RunG", "Codec", "Bits", "Utf", "Utf16", "StrCodec"], gen=[], slices=[("slices_values", "c16_codecs")]),
  "C17": dict(needs=CORE + ["RunG", "Codec", "Bits", "LinkBits", "Float", "RoundProofs"], gen=["GenBitwise"], slices=[("slices_values", "c17_bits")]),
  "C18": dict(needs=CORE + ["FloatText", "FloatTextProofs", "RealText", "PrintInt", "PrintDict", "HeapFacts", "Refine1", "Refine2", "RunG", "Pure", "IOSpec", "Cli"], gen=[], slices=[("slices_values", "c18_print"), ("slices_values", "c18_cli")]),
  "C13": dict(needs=REFINE + ["RunG", "Exc", "Once", "CountDef", "Count"], gen=[], slices=[("slices_core", "c13_once"), ("slices_core", "core_programs")]),
